@@ -87,8 +87,8 @@ inductive PanicSite where
   | pushMappingKey        -- refs/mod.rs push_mapping_key: unreachable!
   | parseTrailing         -- refs/mod.rs parse_ref: unreachable!("Trailing data")
   | coalesceEmpty         -- refs/parser.rs coalesce_literals: unwrap on empty
-  | yamlTagged            -- types/from.rs: todo!("Tagged YAML values")
-  | yamlConstDup          -- mapping.rs From<serde_yaml::Mapping>: insert(..).unwrap()
+  | yamlTagged            -- types/from.rs: only in the panicking `From` impl (public convenience); parsing uses try_from_yaml
+  | yamlConstDup          -- mapping.rs: only in the panicking `From` impl; parsing uses try_from_yaml
   | pyVl                  -- value.rs as_py_obj: unreachable!() on ValueList
   | mergeKeysNotMapping   -- node/mod.rs from_str: as_mapping().unwrap()
   | splitEmpty            -- refs/mod.rs resolve: refpath_iter.next().unwrap()
@@ -115,6 +115,7 @@ inductive Err where
   | absClass                               -- abs_class_name: non-normal path segment
   | config (what : Str)
   | io (what : Str)                        -- filesystem-level failure the model is told about
+  | yamlTaggedValue                        -- "Tagged YAML values are not supported yet" (try_from_yaml)
   | unmodelled (what : Str)                -- input outside the model's universe
   | fuel
   | panic (site : PanicSite)
